@@ -151,6 +151,32 @@ def main(tier):
                                                        "distinct_crash_states": r["distinct_crash_states"]}
         for sig, det in r["violations"]:
             rep.violation(sig, det)
+    # process death while TWO calls are in flight: every distinct tree seen after a scheduling step of every
+    # interleaving (engine T) is a crash image
+    from ._t import run_scenarios
+    S = lambda p, c: ("store", p, c, None)
+    pairs = [("t1A||t2A", "Aunref", [("tag", "p1", "A")], [("tag", "p2", "A")]),
+             ("s2A||d1", "p1A", [S("p2", "A")], [("delete", "p1")]),
+             ("d1||t2A", "p1A", [("delete", "p1")], [("tag", "p2", "A")])]
+    if tier == "thorough":
+        pairs += [("d1||d2", "p1A,p2A", [("delete", "p1")], [("delete", "p2")]), ("s1A||s2A", "empty", [S("p1", "A")], [S("p2", "A")]),
+                  ("s1A||s1B", "empty", [S("p1", "A")], [S("p1", "B")]), ("d1||d1", "p1A", [("delete", "p1")], [("delete", "p1")])]
+    specs = [{"name": n + " (crash images of two calls in flight)", "init": st, "threads": {"T1": a, "T2": b},
+              "pids": ("p1", "p2", "p3"), "formats": (common.DEFAULT_NS,), "observer": "images", "bystander": True,
+              "judge": "liveness"} for n, st, a, b in pairs]
+    conc_images = conc_exec = 0
+    for r in run_scenarios(rep, specs):
+        if "harness_error" in r:
+            raise common.HarnessError("scenario %s: %s" % (r["name"], r["harness_error"]))
+        conc_images += r["crash_images"]
+        conc_exec += r["executions"]
+        per[r["name"]] = {"executions": r["executions"], "distinct_crash_images": r["crash_images"]}
+        for v in r["image_violations"]:
+            rep.violation({"case": r["name"], "part": "concurrent", "what": v}, {"spec": r["spec"]})
+    states += conc_images
+    pts += conc_images
+    rep.coverage["crash_images_two_calls_in_flight"] = conc_images
+    rep.coverage["interleavings_explored_for_crash_images"] = conc_exec
     rep.coverage.update({
         "states": states, "transitions": pts, "traces_validated_against_impl": len(cases),
         "crash_points": pts, "distinct_crash_states": states, "exhaustive": True, "cases": per,
